@@ -223,8 +223,36 @@ class _Canon(ast.NodeTransformer):
 
     visit_AsyncFunctionDef = visit_FunctionDef
 
+    def visit_Module(self, node):
+        # signatures of the plain functions of the module, for the canonical (positional) form of calls between them
+        self._sigs = {}
+        for s_ in node.body:
+            if isinstance(s_, ast.FunctionDef) and not s_.args.vararg and not s_.args.posonlyargs:
+                self._sigs[s_.name] = [a.arg for a in s_.args.args]
+        self.generic_visit(node)
+        return node
+
+    def visit_Call(self, node):
+        self.generic_visit(node)
+        sigs = getattr(self, "_sigs", {})
+        # f(a=x, b=y) with (a, b) the leading parameters of a plain function of the same module  ->  f(x, y)
+        if isinstance(node.func, ast.Name) and node.func.id in sigs and not node.args and node.keywords \
+                and all(k.arg is not None for k in node.keywords):
+            names = sigs[node.func.id]
+            given = [k.arg for k in node.keywords]
+            n_lead = 0
+            while n_lead < len(given) and n_lead < len(names) and given[n_lead] == names[n_lead]:
+                n_lead += 1
+            if n_lead == len(given) and n_lead > 0:
+                return ast.copy_location(ast.Call(func=node.func, args=[k.value for k in node.keywords], keywords=[]), node)
+        return node
+
     def visit_If(self, node):
         self.generic_visit(node)
+        # `if not c: B else: A`  ->  `if c: A else: B`   (plain if/else only)
+        if node.orelse and not (len(node.orelse) == 1 and isinstance(node.orelse[0], ast.If)) \
+                and isinstance(node.test, ast.UnaryOp) and isinstance(node.test.op, ast.Not):
+            node = ast.copy_location(ast.If(test=node.test.operand, body=node.orelse, orelse=node.body), node)
         if not node.orelse and len(node.body) == 1 and isinstance(node.body[0], ast.If) and not node.body[0].orelse:
             inner = node.body[0]
             vals = (node.test.values if isinstance(node.test, ast.BoolOp) and isinstance(node.test.op, ast.And) else [node.test]) + \
